@@ -267,4 +267,68 @@ RECURSIVE Written(_)
 Written(doc) ==
   IF doc = <<>> THEN <<>>
   ELSE (IF doc[1].k = "c" THEN <<"<!--">> \o doc[1].s \o <<"-->">> ELSE doc[1].s) \o Written(Tail(doc))
+(* ---- comments, flat formulation: a text is a sequence of one-character atoms ("SP", "NL",
+        "TAB" for blank, line break, tab) in which "<!--", "-->", "<nowiki>", "</nowiki>" are
+        atoms.  What stands AROUND a comment on its line is part of the text, so what a comment
+        takes with it when it is removed can be stated position by position.
+     StripRef   the statement: a position is deleted iff it lies in a closed comment outside
+                nowiki, or holds the line break DIRECTLY before such a comment; nothing else
+     StripScan  the code (preprocess_text): paired nowiki is stored first, then the text is
+                scanned from the left for  [prefix] "<!--" ... first "-->" [suffix]  and every
+                match is removed.  What prefix / suffix the comment may take with it is the RULE:
+                  "direct"  one line break directly before it                       (the code)
+                  "only"    nothing (what _template_to_body does with a template body)
+                  "indent"  a line break and the blanks / tabs between it and the comment
+                  "lines"   all line breaks directly before it
+                  "trail"   the line break directly before it and the blanks / tabs after it
+                (the last three are mistakes of this step, kept for Demo_Nowiki_c*.cfg: TLC
+                finds the line layout in which the comment then contributes: joins two lines,
+                eats an indentation, ...)                                                    *)
+RECURSIVE FirstAt(_, _, _)
+FirstAt(s, a, i) == IF i > Len(s) THEN 0 ELSE IF s[i] = a THEN i ELSE FirstAt(s, a, i + 1)
+RECURSIVE RunLen(_, _, _)
+RunLen(s, S, i) == IF i <= Len(s) /\ s[i] \in S THEN 1 + RunLen(s, S, i + 1) ELSE 0
+\* <<open, close>> positions of the closed comments outside nowiki, at or after i
+RECURSIVE CSpans(_, _)
+CSpans(s, i) ==
+  IF i > Len(s) THEN {}
+  ELSE IF s[i] = "<nowiki>" /\ FirstAt(s, "</nowiki>", i + 1) > 0 THEN CSpans(s, FirstAt(s, "</nowiki>", i + 1) + 1)
+  ELSE IF s[i] = "<!--" /\ FirstAt(s, "-->", i + 1) > 0
+       THEN {<<i, FirstAt(s, "-->", i + 1)>>} \cup CSpans(s, FirstAt(s, "-->", i + 1) + 1)
+  ELSE CSpans(s, i + 1)
+CDeleted(s) == CHOOSE d \in { { k \in 1..Len(s) : \E p \in sp : (p[1] <= k /\ k <= p[2]) \/ (k = p[1] - 1 /\ s[k] = "NL") }
+                              : sp \in {CSpans(s, 1)} } : TRUE
+RECURSIVE Keep(_, _, _)
+Keep(s, d, i) == IF i > Len(s) THEN <<>> ELSE (IF i \in d THEN <<>> ELSE <<s[i]>>) \o Keep(s, d, i + 1)
+StripRef(s) == CHOOSE r \in { Keep(s, d, 1) : d \in {CDeleted(s)} } : TRUE
+
+\* a text as characters only (a recorded output is compared character by character: the removal
+\* of a comment may bring "<!" and "--" together, which is text, not a delimiter of the written input)
+CharsOf(a) == CASE a = "<!--" -> <<"<", "!", "-", "-">> [] a = "-->" -> <<"-", "-", ">">>
+                [] a = "<nowiki>" -> <<"<", "n", "o", "w", "i", "k", "i", ">">> [] a = "</nowiki>" -> <<"<", "/", "n", "o", "w", "i", "k", "i", ">">>
+                [] OTHER -> <<a>>
+RECURSIVE Chars(_)
+Chars(s) == IF s = <<>> THEN <<>> ELSE CharsOf(s[1]) \o Chars(Tail(s))
+
+CBlanks == {"SP", "TAB"}
+CRules == {"direct", "only", "indent", "lines", "trail"}
+CMistakes == {"indent", "lines", "trail"}
+CPrefix(s, i, rule) ==
+  CASE rule = "only"   -> 0
+    [] rule = "indent" -> IF s[i] = "NL" THEN 1 + RunLen(s, CBlanks, i + 1) ELSE 0
+    [] rule = "lines"  -> RunLen(s, {"NL"}, i)
+    [] OTHER           -> IF s[i] = "NL" THEN 1 ELSE 0
+CSuffix(s, j, rule) == IF rule = "trail" THEN RunLen(s, CBlanks, j) ELSE 0
+\* where the comment matched at position i (with its optional prefix) ends; 0 = no match at i
+CMatchEnd(s, i, rule) ==
+  LET p == CPrefix(s, i, rule)
+      o == IF p > 0 /\ i + p <= Len(s) /\ s[i + p] = "<!--" THEN i + p ELSE IF s[i] = "<!--" THEN i ELSE 0
+  IN IF o = 0 THEN 0 ELSE FirstAt(s, "-->", o + 1)
+RECURSIVE StripScan(_, _, _)
+StripScan(s, i, rule) ==
+  IF i > Len(s) THEN <<>>
+  ELSE IF s[i] = "<nowiki>" /\ FirstAt(s, "</nowiki>", i + 1) > 0
+       THEN SubSeq(s, i, FirstAt(s, "</nowiki>", i + 1)) \o StripScan(s, FirstAt(s, "</nowiki>", i + 1) + 1, rule)
+  ELSE LET e == CMatchEnd(s, i, rule) IN
+         IF e > 0 THEN StripScan(s, e + 1 + CSuffix(s, e + 1, rule), rule) ELSE <<s[i]>> \o StripScan(s, i + 1, rule)
 =============================================================================
